@@ -67,6 +67,8 @@ class Run:
         if s.tier not in ("quick", "thorough"):
             s.tier = "quick"
         s.seed = int(os.environ.get("VERIF_SEED", "0") or 0)
+        if "--seed" in argv:
+            s.seed = int(argv[argv.index("--seed") + 1])
         s.repo = os.environ.get("PYVC_REPO", REPO)
         if "--repo" in argv:
             s.repo = argv[argv.index("--repo") + 1]
